@@ -175,6 +175,8 @@ def solver_part(ctx):
                 cls = None
                 if sname == "slg" and H.f7_class(p, goals, list(o)):
                     cls = "F7-slg-coinductive-cycle"
+                elif sname == "slg" and H.f16_class(p, goals[g]):
+                    cls = "F16-slg-answer-order"
                 elif sname.startswith("rec") and H.mixed_class(p, goals):
                     cls = "F27-mixed-cycle"
                 rec = {"program": text, "solver": sname, "history": [gts[x] for x in o], "goal": gts[g],
